@@ -253,7 +253,19 @@ def small(A):
     """int fields small enough to be mixed with the float sentinels (`int + float('-inf')` converts the int
     to a double first and raises OverflowError beyond ~2^1024)"""
     return ((True if is_fl(A.exp) else (-FLOAT_CONV < A.exp and A.exp < FLOAT_CONV))
-            and (True if is_fl(A.prec) else A.prec < FLOAT_CONV))
+            and (True if is_fl(A.prec) else A.prec < FLOAT_CONV)
+            and (True if is_fl(A.pos_bound) else _small_bound(A.pos_bound, A))
+            and (True if is_fl(A.neg_bound) else _small_bound(A.neg_bound, A)))
+
+
+def _small_bound(x, A):
+    return bl(x._c) < FLOAT_CONV and (True if is_fl(A.exp) else x._exp - A.exp < FLOAT_CONV)
+
+
+def quantum_if_bounded(A):
+    """effective_prec() asserts that a format with a finite magnitude bound and unbounded precision has a
+    finite quantum (`assert not isinstance(self.exp, float)`)"""
+    return True if (is_fl(A.pos_bound) and is_fl(A.neg_bound)) or not is_fl(A.prec) else not is_fl(A.exp)
 
 
 def mul_nan(a, b):
